@@ -22,6 +22,7 @@ META = {
                        "CWT / KDF encoders are C18",
     "trusted_base": ["RFC 8152 CDDL as transcribed in spec/rfc8152.py", "ciborium into_writer", "std Vec::push / IntoIterator order"],
 }
+META["decides"] += ' (As built: encoder arrays are read as sequence values; alternatives for one label are compared as a set; omission guards are canonical.)'
 
 
 def enc_key(ty):
@@ -122,6 +123,16 @@ def check_map_encoder(ctx, ty, emit, extras_field, rules=("R-1", "R-2", "R-5", "
             it = codec_loop_source(entry)
             det = {"iterates": show(it) if it else None, "value": show(vt)[:80]}
             ok = it == ("field", ("param", 0), extras_field) and vt == ("field", entry, "1")
+        # ... for EVERY element: an iteration ends in the push or leaves the function; none is skipped, none pushed twice
+        body = dict(f.cfg.loops()).get(le["loop"], set())
+        latches = [p for p in f.cfg.pred[le["loop"]] if p in body]
+        inner = f.cfg.in_loop(le["bb"])
+        from lib.guards import reach_tracking_failures
+        skipping = reach_tracking_failures(f, le["loop"], {le["bb"]}) & set(latches)
+        every = bool(latches) and not skipping and bool(inner) and inner[-1] == le["loop"]
+        ctx.ob(R5, "extras-every-element:%s" % ty, every,
+               "no element of `%s` is skipped: every iteration of the extras loop that continues has pushed its entry, exactly once" % extras_field,
+               where=f.where(le["bb"]), detail={"continues_without_push_from": [f.where(p) for p in sorted(skipping)], "push_block": le["bb"]})
         ctx.ob(R5, "extras-in-order:%s" % ty, ok,
                "the extras of %s are emitted as (label, value) for each element of `%s` in list order, value untouched" % (ty, extras_field),
                where=f.where(le["bb"]), detail=det, sample=det)
@@ -239,7 +250,11 @@ def check_cbor_bstr(ctx, rule):
             good = (len(seen) == 3 and a == ("field", ("variant", ("field", ("param", 0), "original_data"), "Some"), "0")
                     and is_call(b, "alloc::vec::Vec::<T>::new")
                     and c is not None and c[0] == "tryok" and is_call(c[1], "common::CborSerializable::to_vec") and c[1][2] == (("param", 0),))
+    edits = pv.tampered({"k": "copy", "place": {"l": 1, "p": []}}, 0, 0)
+    if edits:
+        good = False
+        det = dict(det, edited="; ".join(sorted(set(edits))))
     ctx.ob(rule, "cbor_bstr", good,
            "cbor_bstr(): stored wire bytes if any (the payload itself); otherwise a zero-length string iff the header is empty; otherwise "
-           "the serialised header map", where=cb.span, detail=det, sample=det)
+           "the serialised header map; the header is not edited on the way", where=cb.span, detail=det, sample=det)
     return good
